@@ -117,4 +117,33 @@ def selftest(pid, R, only=None):
         elif r["result"] == "caught" and r.get("expect") == "missed":
             R.note("self-test: %s is now reported (was recorded as missed)" % r["change"])
     R.analysed["selftest"] = results
+    # the other direction: the catalogued behaviour-preserving refactorings of this property's anchored code (benign/<pid>-k)
+    # must raise no alarm.  Also a note about the checker, never a verdict about /repo.
+    bdir = os.path.join(VERIF, "benign")
+    quiet = []
+    if os.path.isdir(bdir) and not only:
+        for name in sorted(os.listdir(bdir)):
+            pp = os.path.join(bdir, name, "patch.diff")
+            if not name.startswith(pid + "-") or not os.path.exists(pp):
+                continue
+            tree = scratch_copy(repo)
+            try:
+                p = subprocess.run(["git", "apply", "--unsafe-paths", "--directory=" + tree, pp], cwd="/", stdout=subprocess.PIPE, stderr=subprocess.STDOUT, text=True)
+                if p.returncode != 0:
+                    quiet.append({"change": "benign/" + name, "result": "skipped"})
+                    continue
+                try:
+                    fails = run_on(pid, tree)
+                except Exception as e:
+                    quiet.append({"change": "benign/" + name, "result": "error", "why": str(e)[:200]})
+                    continue
+                quiet.append({"change": "benign/" + name, "result": "alarm" if fails else "silent", "reports": ["%s|%s" % (r, k) for r, k, _ in fails[:4]]})
+            finally:
+                shutil.rmtree(tree, ignore_errors=True)
+        R.count("self-test: catalogued refactorings re-analysed", len(quiet))
+        R.count("self-test: refactorings that stay silent", sum(1 for q in quiet if q["result"] == "silent"))
+        for q in quiet:
+            if q["result"] == "alarm":
+                R.note("self-test: refactoring %s raises an alarm in this check (%s)" % (q["change"], "; ".join(q["reports"][:2])[:160]))
+        R.analysed["selftest_refactorings"] = quiet
     return results
